@@ -102,11 +102,14 @@ pub fn exec_field_attrs(input: &Value) -> (Value, Value) {
     let kind = s(input, "kind");
     let ident = s(input, "ident");
     let delim = s(input, "delim");
+    // attributes of other derive macros on the same item (`#[sqlx(rename_all = "camelCase")]`): not serde's business
+    let foreign: String = input["foreign_container"].as_array().cloned().unwrap_or_default().iter().map(|a| format!("#[{}]\n", a.as_str().unwrap_or(""))).collect();
     // helper attributes may precede the derive they belong to (rustc warns, serde honours them)
     let first = input.get("attrs_first").and_then(|x| x.as_bool()).unwrap_or(false);
     let src = if first && kind != "variant" {
         format!(
-            "{}#[derive(Serialize, Deserialize)]\npub struct S {{\n{}    pub {}: {},\n}}\n",
+            "{}{}#[derive(Serialize, Deserialize)]\npub struct S {{\n{}    pub {}: {},\n}}\n",
+            foreign,
             attr_lines_delim(&input["container"], "", &delim),
             attr_lines_delim(&input["attrs"], "    ", &delim),
             ident,
@@ -114,21 +117,24 @@ pub fn exec_field_attrs(input: &Value) -> (Value, Value) {
         )
     } else if first {
         format!(
-            "{}#[derive(Serialize, Deserialize)]\npub enum S {{\n{}    {},\n}}\n",
+            "{}{}#[derive(Serialize, Deserialize)]\npub enum S {{\n{}    {},\n}}\n",
+            foreign,
             attr_lines_delim(&input["container"], "", &delim),
             attr_lines_delim(&input["attrs"], "    ", &delim),
             ident
         )
     } else if kind == "variant" {
         format!(
-            "#[derive(Serialize, Deserialize)]\n{}pub enum S {{\n{}    {},\n}}\n",
+            "#[derive(Serialize, Deserialize)]\n{}{}pub enum S {{\n{}    {},\n}}\n",
+            foreign,
             attr_lines_delim(&input["container"], "", &delim),
             attr_lines_delim(&input["attrs"], "    ", &delim),
             ident
         )
     } else {
         format!(
-            "#[derive(Serialize, Deserialize)]\n{}pub struct S {{\n{}    pub {}: {},\n}}\n",
+            "#[derive(Serialize, Deserialize)]\n{}{}pub struct S {{\n{}    pub {}: {},\n}}\n",
+            foreign,
             attr_lines_delim(&input["container"], "", &delim),
             attr_lines_delim(&input["attrs"], "    ", &delim),
             ident,
@@ -336,7 +342,10 @@ fn run_attrs(out: &mut Out, tier: &str) {
             // the key does not depend on the field's type: rotate through types of every kind (marker, unit, unsized, …)
             let ty = FIELD_TYPES[k % FIELD_TYPES.len()];
             let delim = ["paren", "brace", "paren", "bracket", "paren"][k % 5];
-            out.case("fieldAttrs", json!({"kind": kind, "ident": ident, "container": c, "attrs": attrs, "ty": ty, "delim": delim, "attrs_first": k % 4 == 2}), json!({"gen": "attrs"}));
+            let foreign_pool = ["sqlx(rename_all = \"camelCase\")", "strum(serialize_all = \"snake_case\")", "schemars(rename_all = \"UPPERCASE\")", "sqlx(rename_all = \"SCREAMING_SNAKE_CASE\", type_name = \"x\")"];
+            let foreign_c: Value = if k % 3 == 1 { json!([foreign_pool[k % 4]]) } else { json!([]) };
+            out.case("fieldAttrs", json!({"kind": kind, "ident": ident, "container": c, "attrs": attrs, "ty": ty, "delim": delim, "attrs_first": k % 4 == 2,
+                "foreign_container": foreign_c}), json!({"gen": "attrs"}));
         }
     }
 }
